@@ -133,6 +133,21 @@ int main(int argc, char** argv) {
                 if (ok2 != c["accept"].as_bool()) fail(idx, c, ok2 ? "dump-wrote-too-deep" : "dump-refused-within-limit", e2);
                 else if (!ok2 && e2.find("nesting") == std::string::npos) fail(idx, c, "dump-refused-without-the-nesting-error", e2);
             }
+        } else if (k == "enc-sibling") {
+            // [ sib, sib, .., nest ] : `count` sibling containers of one element each, then a nest whose innermost container is at `depth`
+            const std::string& f = c["f"].str(); long depth = (long)c["depth"].as_int(), count = (long)c["count"].as_int(); int limit = (int)c["limit"].as_int(); bool obj = c["kind"].str() == "object";
+            auto wrap = [&](json v) { if (obj) { json o(json_object_arg); o.try_emplace("a", std::move(v)); return o; } json a(json_array_arg); a.push_back(std::move(v)); return a; };
+            json nest(1); for (long i = 1; i < depth; ++i) nest = wrap(std::move(nest));        // depth - 1 levels below the outer container
+            json outer = obj ? json(json_object_arg) : json(json_array_arg);
+            for (long i = 0; i < count; ++i) { json sib = wrap(json(1)); if (obj) outer.try_emplace("s" + std::to_string(i), std::move(sib)); else outer.push_back(std::move(sib)); }
+            if (obj) outer.try_emplace("z", std::move(nest)); else outer.push_back(std::move(nest));
+            if (f == "bson" && !obj) { json d(json_object_arg); d.try_emplace("a", std::move(outer)); outer = std::move(d); if (depth + 1 > limit && c["accept"].as_bool()) return; }   // BSON root must be a document: one level more
+            std::string e2; std::vector<uint8_t> out; std::string text;
+            bool ok2 = accepted([&] { if (f == "cbor") cbor::encode_cbor(outer, out, cbor::cbor_options{}.max_nesting_depth(limit)); else if (f == "msgpack") msgpack::encode_msgpack(outer, out, msgpack::msgpack_options{}.max_nesting_depth(limit));
+                                      else if (f == "ubjson") ubjson::encode_ubjson(outer, out, ubjson::ubjson_options{}.max_nesting_depth(limit)); else if (f == "bson") bson::encode_bson(outer, out, bson::bson_options{}.max_nesting_depth(limit));
+                                      else { outer.dump(text, json_options{}.max_nesting_depth(limit)); std::string t2; outer.dump_pretty(t2, json_options{}.max_nesting_depth(limit)); } }, e2);
+            bool expect = c["accept"].as_bool(); if (f == "bson" && !obj) expect = depth + 1 <= limit;
+            if (ok2 != expect) fail(idx, c, ok2 ? "encoder-wrote-too-deep-after-siblings" : "encoder-refused-within-limit-after-siblings", e2);
         } else if (k == "maxitems") {
             long n = (long)c["count"].as_int(); size_t m = (size_t)c["maxitems"].as_int(); const std::string& kind = c["kind"].str();
             std::vector<uint8_t> in;
